@@ -170,6 +170,9 @@ type guide struct {
 	// forced: branches taken only because the other side cannot reach a success return, although neither the
 	// oracle nor constant evaluation decides them: the success of the guided path assumes them
 	forced []forcedBranch
+	// allForced: every branch the walk took only because the other side cannot succeed, oracle or not: the
+	// conditions under which the function rejects its input
+	allForced []forcedBranch
 }
 
 type forcedBranch struct {
@@ -283,6 +286,7 @@ func (f *frame) noteForced(iff *ssa.If, succ int) {
 	if os.Getenv("GLDAPCHECK_ORACLE") == "3" {
 		fmt.Println("   noteForced", f.condString(iff.Cond), succ, g.oracle != nil, f.c.pos(iff))
 	}
+	g.allForced = append(g.allForced, forcedBranch{Cond: f.condString(iff.Cond), Succ: succ, Pos: f.c.pos(iff), Oracle: -1})
 	if g.oracle == nil {
 		return
 	}
@@ -1555,12 +1559,13 @@ func (f *frame) optionList(v ssa.Value, depth int) ([]optCall, bool) {
 // guidedPaths enumerates the success paths of fn (and of the callees it
 // inlines): forced branches are followed, genuine forks explored both ways.
 type guidedPath struct {
-	Forced  []forcedBranch
-	Res     *interpResult
-	Asserts []string
-	Decided map[*ssa.If]int
-	Trace   []guideDecision
-	State   any
+	AllForced []forcedBranch
+	Forced    []forcedBranch
+	Res       *interpResult
+	Asserts   []string
+	Decided   map[*ssa.If]int
+	Trace     []guideDecision
+	State     any
 }
 
 func (c *Ctx) guidedPaths(fn *ssa.Function, env *symEnv, opaque map[string]bool, limit int) ([]guidedPath, bool) {
@@ -1599,7 +1604,7 @@ func (c *Ctx) guidedPathsF(fn *ssa.Function, env *symEnv, opaque map[string]bool
 			}
 			return
 		}
-		out = append(out, guidedPath{Res: r, Asserts: g.asserts, Decided: decide, Trace: g.trace, State: state, Forced: g.forced})
+		out = append(out, guidedPath{Res: r, Asserts: g.asserts, Decided: decide, Trace: g.trace, State: state, Forced: g.forced, AllForced: g.allForced})
 	}
 	rec(map[*ssa.If]int{})
 	return out, complete
